@@ -34,8 +34,10 @@ Definition read_int (ai : N) : prog N :=
 
 (* uint64 -> int64 conversion (two's complement) *)
 Definition to_i64 (u : N) : Z := if u <? two63 then Z.of_N u else (Z.of_N u - Z.of_N two64)%Z.
-(* -1 - v computed in 64-bit unsigned arithmetic, returned as int64 *)
-Definition neg_of (v : N) : Z := to_i64 ((two64 - 1 - v) mod two64).
+(* read_integer / read_negative return int64_t: a CBOR integer outside that range is CLAMPED (it used to wrap around: an unknown map key
+   2^64-1 was taken for key -1, -2^64 for key 0 - defect F15, repaired) *)
+Definition clamp_i64 (u : N) : Z := if u <? two63 then Z.of_N u else (Z.of_N two63 - 1)%Z.
+Definition neg_of (v : N) : Z := if v <? two63 then (-1 - Z.of_N v)%Z else (- Z.of_N two63)%Z.
 
 Definition bad_ai (ai : N) : bool := (28 <=? ai) && (ai <=? 30).
 
@@ -56,7 +58,7 @@ Definition read_negative : prog Z :=
 Definition read_integer : prog Z :=
   pk <- peek_type ;;
   match pk with
-  | Some MU => v <- read_unsigned ;; Ret (to_i64 v)
+  | Some MU => v <- read_unsigned ;; Ret (clamp_i64 v)
   | Some MN => read_negative
   | _ => Throw EDec
   end.
